@@ -78,7 +78,10 @@ PROPS = {
         design="3/C04"),
     "C05": dict(
         engine="histsim", profile="C05", builds=["dbg", "rwdi", "rel"], level="exploration",
-        quick_s=45, thorough_s=600,
+        parts=[dict(engine="histsim", profile="C05", builds=["dbg", "rwdi", "rel"], weight=6.0),
+               # the temporary block source: its blocks go back at thread exit / program exit (forked children)
+               dict(engine="schedsim", profile="C14", builds=["rwdi"], weight=0.7)],
+        quick_s=50, thorough_s=600,
         technique="deterministic simulation with fault injection: upstream block ledger (exact match, "
                   "exactly-once, LIFO) under injected upstream failures",
         text="memory_arena driven directly and through every arena user; the simulated upstream checks each "
